@@ -11,7 +11,7 @@ ASSUMPTIONS_COMMON = [
     'no assume()/admit() in any generated file (scanned on every run)',
 ]
 
-CLAIMED = ['C01', 'C02', 'C05', 'C06', 'C07', 'C09', 'C12', 'C14', 'C15', 'C20']
+CLAIMED = ['C01', 'C02', 'C05', 'C06', 'C07', 'C09', 'C12', 'C14', 'C15', 'C16', 'C18', 'C20']
 
 INFO = {
  'C20': {
@@ -22,6 +22,10 @@ INFO = {
  },
 }
 INFO.update({
+ 'C18': {'claim': 'Whole TransientSource state machine on the verbatim text (rewrites R1-R3, R6, R8): for every state x {process_events with any child result, remove, replace, map, register, reregister, unregister}, any child obeying the registration protocol and any parent whose register/unregister alternate, the state invariant (child registered exactly when it is the current kept child of a registered parent) is preserved, the child protocol preconditions hold at all 14 call sites, a child is dropped only when unregistered, events are forwarded only from the kept child, only Continue/Reregister are returned. Three obligations fail on the real code (known findings F6a/b/d).',
+         'not_covered': ['Box<T>/&mut T blanket impls', 'failure of the NEW child registration inside Replace (documented hole)'], 'trusted': ['mem::take spec', 'EventSource protocol assumed for the child type parameter']},
+ 'C16': {'claim': 'Generic side: token/poller recorded only after successful registration, cleared by unregister, unchanged on Err; callback only for the registered token; cvt_interest/cvt_mode exact.',
+         'not_covered': ['kernel epoll table', 'Poll::{register,reregister,unregister}', 'Async adapter'], 'trusted': []},
  'C05': {'claim': 'Timer heap and per-timer contracts, unbounded: next_expired returns only entries with deadline <= now, always an earliest one, and removes exactly it; cancel removes every entry of the counter (given one entry per counter) and never touches other timers; the callback is reachable only for the timer own current arming and only with its current deadline; Drop => Remove, ToInstant(i) => deadline i; reregister == unregister;register.',
          'not_covered': ['cross-timer histories through the shared Rc<RefCell<TimerWheel>> (uniq across dispatches, F5)', 'Poll::poll loop (see C02/C12 slices)'], 'trusted': ['BinaryHeap root is a cmp-maximal element; Instant order = integer nanoseconds']},
  'C02': {'claim': 'Interest/mode translation exact (cvt_interest/cvt_mode, all combinations); every due timer is returned by next_expired.', 'not_covered': ['dispatch_events loop'], 'trusted': []},
